@@ -814,7 +814,7 @@ theorem deVariantCase_reads (env : Env) (S : List String) (vis : Visitor) (dAny 
           · exact absurd h1 hvis
         have hbind : ((addCost s4 1).bind fun _ s5 =>
               if vis = .ignored then (dIgn wt s5).map fun _ => Val.null
-              else (dAny wt et s5).map fun v => Val.variant el v 0) = .ok v st' →
+              else (dAny wt et s5).map fun v => Val.variant el v idx) = .ok v st' →
             Reads env wt s2.input st'.input := by
           intro hb
           obtain ⟨_, s5, h7, h8⟩ := bind_ok_inv hb
@@ -879,7 +879,7 @@ theorem deVecCase_reads (env : Env) (S : List String) (vis : Visitor) (fuel : Na
           · obtain ⟨vs, h5, _⟩ := rmap_ok_inv h4
             rw [← i3, hw]
             exact iterV_reads env (.prim p) _ (fun s x s' hx => Reads.prim_of env p _ _ x (rd_ok_inv hx)) n s3 st' vs h5
-      · simp only [] at h2
+      · try simp only [] at h2
         split at h2
         · rename_i wp hbig
           split at h2
@@ -889,6 +889,7 @@ theorem deVecCase_reads (env : Env) (S : List String) (vis : Visitor) (fuel : Na
             obtain ⟨vs, h5, _⟩ := rmap_ok_inv h4
             rw [← i3]
             have hwire : (wp = .nat ∧ wire = .prim .nat) ∨ (wp = .int ∧ wire = .prim .int) := by
+              unfold bigPrimOf at hbig
               split at hbig <;> simp at hbig <;> subst hbig <;> simp
             rcases hwire with ⟨hwp, hw⟩ | ⟨hwp, hw⟩
             · rw [hw]
